@@ -66,6 +66,18 @@ CHECKS.append(check(
     "DESIGN.md section 3 C, section 5 C07"))
 
 CHECKS.append(check(
+    "C08", "csim", "exploration",
+    "Same simulator. One run = one call history of 3-11 steps on a decoder object whose memory starts raw (zeroes, 0xFF or noise, never initialised): initialize (ok / sizeof too small or too big / wrong version), transform_io with valid arguments over a valid or damaged stream delivered in drawn pieces, transform_io with a NULL source or NULL destination, re-initialisation at any point. Checked call by call against an explicit life-cycle state machine (Raw, Ready, Suspended, Disabled, NoClaim) written from doc/note/statuses.md and initialization.md that predicts exactly the statuses the property names ('initialize not called', 'bad sizeof receiver', 'bad wuffs version', 'bad argument', 'disabled by previous error'), plus the buffer contract on every call (source bytes and meta untouched, destination bytes below the old wi untouched, indexes monotone and in range).",
+    CSIM_NOTE + " io_transformer decoders only (one coroutine each): the image decoders' 'bad call sequence' clause and 'interleaved coroutine calls' are not driven yet. The model makes no prediction after a failed initialize or after a decode has finished, because the property says nothing there.",
+    "deterministic simulation: seeded call histories against an explicit life-cycle state machine + buffer-contract invariants",
+    "DESIGN.md section 3 C, section 5 C08, Appendix C"))
+CHECKS.append(check(
+    "C09", "csim", "exploration",
+    "Same simulator. One run = one (stream, delivery schedule) executed on a base variant (ASan build with this CPU's SIMD paths, zeroed object memory, default initialize flags) and on 3-5 drawn variants of the cross product {ASan, -O2} x {SIMD paths, WUFFS_CONFIG__AVOID_CPU_ARCH} x object memory pre-fill {zeroes, 0xFF, noise} x initialize flags {default, ALREADY_ZEROED on zeroed memory, LEAVE_INTERNAL_BUFFERS_UNINITIALIZED} x {fresh object, memory that just held a decode of another stream} x destination-beyond-wi pre-fill; the portable twin of the base is always included. The schedule comes from a sub-tape seeded by one draw, so every variant sees the same decisions. Oracle: identical initialize status, final status, output bytes, consumed count and per-call record fingerprint.",
+    CSIM_NOTE + " The JPEG IDCT exception does not arise (no image decoders yet).",
+    "deterministic simulation: one delivery schedule replayed across memory / initialize-flag / CPU-path variants, differential",
+    "DESIGN.md section 3 C, section 5 C09"))
+CHECKS.append(check(
     "C20", "envsim", "exploration",
     "The compiler (cmd/wuffs, cmd/wuffs-c and everything they link) is built from the working tree twice: as is, and with every range-over-map (found by go/types: 9 sites today) and every (*os.File).Readdir result rewritten onto a seeded permutation runtime injected with go build -overlay. One run = one whole `wuffs gen std/...` by the rewritten tools under a drawn permutation seed, GOMAXPROCS, scratch-root path, working directory and unrelated environment variables; oracle: the sha256 of every generated artefact (gen/c/*.c, gen/wuffs/**, the release file) equals the reference produced by the un-rewritten tools. One run in six checks instead that the reference release equals the committed release/c/wuffs-unsupported-snapshot.c, or that lang/check/gen.go regenerates the committed lang/check/data.go.",
     "Sampling of permutation seeds and environments. Assumes map iteration and directory enumeration are the compiler's only order-nondeterminism sources (it starts no goroutines; checked: none of the 9 maps is keyed by pointers, so every permutation is reproducible). A sensitivity probe showed both directions: dropping listDir's file-name sort is caught at run 0; weakening a sort whose result never reaches the output is, correctly, not reported (seeded/C20-s1-equivalent).",
@@ -107,7 +119,7 @@ def main():
         },
         "engines": [
             {"name": "envsim", "path": "/verif/engines/envsim", "serves_properties": ["C20"], "kind_free_text": "the real compiler under seeded map-iteration / directory-enumeration order (rewrite/maprange.go + engines/envsim/rt as a virtual package), environment, cwd and GOMAXPROCS; whole `wuffs gen std/...` runs compared by artefact hash"},
-            {"name": "csim", "path": "/verif/engines/csim", "serves_properties": ["C03", "C05", "C07"], "kind_free_text": "I/O-delivery schedule simulator: a Go-side producer/consumer drives, call by call, a C driver child (/verif/csim/driver.c) linked against C that `wuffs gen` produces from the working tree at check time; sanitizer and -O2 builds, cached by content hash"},
+            {"name": "csim", "path": "/verif/engines/csim", "serves_properties": ["C03", "C05", "C07", "C08", "C09"], "kind_free_text": "I/O-delivery schedule simulator: a Go-side producer/consumer drives, call by call, a C driver child (/verif/csim/driver.c) linked against C that `wuffs gen` produces from the working tree at check time; sanitizer and -O2 builds, cached by content hash"},
             {"name": "gosim", "path": "/verif/engines/gosim", "serves_properties": ["C14"], "kind_free_text": "seeded goroutine scheduler (simrt) under the real lib/rac concurrent reader, whose channel constructs are rewritten at check time by /verif/rewrite and injected with go build -overlay"},
             {"name": "disksim", "path": "/verif/engines/disksim", "serves_properties": ["C13", "C15"], "kind_free_text": "simulated storage (fault-injecting io.Writer/TempFile, op-counting ReadSeeker) under the real lib/rac writer and readers"},
         ],
